@@ -18,6 +18,10 @@ import (
 // Errorf returns an opaque non-nil error whose text is never available (calling Error() on it is unsupported).
 func init() {
 	extraIntrinsics = append(extraIntrinsics, func(e *Engine) {
+		if _, dup := e.intr["fmt.Sprintf"]; dup {
+			// intr_errors.go already models fmt (native when concrete, an opaque string otherwise, %w wrapping): keep one model
+			return
+		}
 		e.intr["fmt.Sprintf"] = func(e *Engine, st *State, cc *ssa.CallCommon, a []Value) Value {
 			format, ok := a[0].(StringVal).Concrete()
 			if !ok {
